@@ -675,7 +675,7 @@ class SymNP:
         USED.add("isfinite")
         if not is_sym(a):
             return _np.isfinite(a)
-        return _elementwise(lambda e: ~SymReal.lift(e).is_nan(), a, nout_bool=True)
+        return _elementwise(lambda e: SymReal.lift(e).is_finite(), a, nout_bool=True)
 
     def isnan(self, a):
         USED.add("isnan")
@@ -687,19 +687,19 @@ class SymNP:
         USED.add("isinf")
         if not is_sym(a):
             return _np.isinf(a)
-        return _np.zeros(_np.shape(a), dtype=bool)
+        return _elementwise(lambda e: SymBool(SymReal.lift(e).is_inf), a, nout_bool=True)
 
     def isposinf(self, a):
         USED.add("isposinf")
         if not is_sym(a):
             return _np.isposinf(a)
-        return _np.zeros(_np.shape(a), dtype=bool)
+        return _elementwise(lambda e: SymBool(SymReal.lift(e).is_inf and SymReal.lift(e).c > 0), a, nout_bool=True)
 
     def isneginf(self, a):
         USED.add("isneginf")
         if not is_sym(a):
             return _np.isneginf(a)
-        return _np.zeros(_np.shape(a), dtype=bool)
+        return _elementwise(lambda e: SymBool(SymReal.lift(e).is_inf and SymReal.lift(e).c < 0), a, nout_bool=True)
 
     def isclose(self, a, b, rtol=1e-05, atol=1e-08, equal_nan=False):
         USED.add("isclose")
